@@ -244,15 +244,20 @@ func (e *Engine) verifyFunc(fn *ssa.Function, con *Contract) *VC {
 	vc.obls = append(vc.obls, &Obligation{Name: key + "#cover.exit", Kind: "cover", Desc: "some return is reachable (assumptions are consistent)", Pos: e.fset.Position(fn.Pos()),
 		PC: out.pc, Goal: "false", Mark: vc.sc.mark(), Func: key, Cover: true})
 	if con != nil {
-		post := vc.contractEnv(fn, args, out, entry, res)
-		for i, en := range con.Ensures {
-			t := post.evalBool(en.Expr)
-			if post.err != nil {
-				vc.unsupported("ensures %q: %v", en.Src, post.err)
-				post.err = nil
-				continue
+		_ = res
+		// the postcondition is checked at every return site separately (simpler VCs than on the merged exit)
+		for _, r := range vc.topRets {
+			post := vc.contractEnv(fn, args, r.st, entry, r.vals)
+			site := e.lineText(e.fset.Position(r.pos))
+			for i, en := range con.Ensures {
+				t := post.evalBool(en.Expr)
+				if post.err != nil {
+					vc.unsupported("ensures %q: %v", en.Src, post.err)
+					post.err = nil
+					continue
+				}
+				vc.oblige(r.st, "ensures", fmt.Sprintf("%s#ensures%d@%s", key, i+1, site), "postcondition: "+en.Src, e.fset.Position(r.pos), t)
 			}
-			vc.oblige(out, "ensures", fmt.Sprintf("%s#ensures%d", key, i+1), "postcondition: "+en.Src, e.fset.Position(fn.Pos()), t)
 		}
 		vc.frameObligations(fn, con, args, entry, out, next0)
 	}
@@ -262,12 +267,29 @@ func (e *Engine) verifyFunc(fn *ssa.Function, con *Contract) *VC {
 // frameObligations: objects that existed at entry are unchanged except as declared by modifies.
 func (vc *VC) frameObligations(fn *ssa.Function, con *Contract, args []Val, entry, out *State, next0 string) {
 	key := funcKey(fn)
+	pos := vc.eng.fset.Position(fn.Pos())
 	for _, m := range con.Modifies {
 		if m == "*" {
 			return
 		}
+		if strings.HasPrefix(m, "*\\") {
+			for _, k := range strings.Split(m[2:], "\\") {
+				k = strings.TrimSpace(k)
+				srt, ok := vc.heapSorts[k]
+				if !ok {
+					continue
+				}
+				h0 := vc.heapGet(entry, k, srt)
+				h1 := vc.heapGet(out, k, srt)
+				if h0 == h1 {
+					continue
+				}
+				vc.oblige(out, "frame", key+"#frame:"+k, "frame: pre-existing objects of "+k+" unchanged", pos,
+					fmt.Sprintf("(forall ((r!q Int)) (=> (< r!q %s) (= (select %s r!q) (select %s r!q))))", next0, h1, h0))
+			}
+			return
+		}
 	}
-	pos := vc.eng.fset.Position(fn.Pos())
 	if out.epoch != entry.epoch {
 		vc.oblige(out, "frame", key+"#frame.unknown-effects", "function calls code with unknown effects but declares a frame", pos, "false")
 		return
